@@ -72,70 +72,7 @@ func (r *Run) phiSelectedWhen(rule, key string, phi *ssa.Phi, valueRe, atomRe st
 }
 
 func moreC12(r *Run) {
-	P := r.P
-	// ---- pruning options wiring (seed C12_a)
-	r.Rule("C12-R8", "pruning options reach the tree store unswapped: SetPruning assigns numRecent = KeepRecent() and storeEvery = KeepEvery(); LoadStore builds the store and applies the given pruning options through SetPruning (or passes KeepRecent, KeepEvery in that order); UnsafeNewStore stores its parameters in the same-named fields; PruningOptions getters return their own field", 6)
-	if f := r.fn("(*store/iavl.Store).SetPruning"); f != nil {
-		got := map[string]string{}
-		Instrs(f, func(in ssa.Instruction) {
-			if s, ok := in.(*ssa.Store); ok {
-				got[P.TermAt(s.Addr, s).String()] = P.TermAt(s.Val, s).String()
-			}
-		})
-		r.Check(got["&param:st.numRecent"] == "(store/types.PruningOptions).KeepRecent(param:opt)", "C12-R8", "SetPruning/numRecent", P.Pos(f.Pos()), got["&param:st.numRecent"], "numRecent := "+got["&param:st.numRecent"])
-		r.Check(got["&param:st.storeEvery"] == "(store/types.PruningOptions).KeepEvery(param:opt)", "C12-R8", "SetPruning/storeEvery", P.Pos(f.Pos()), got["&param:st.storeEvery"], "storeEvery := "+got["&param:st.storeEvery"])
-	}
-	if f := r.fn("store/iavl.UnsafeNewStore"); f != nil {
-		for _, ret := range Returns(f) {
-			t := P.TermAt(ret.Results[0], ret).String()
-			r.Check(strings.Contains(t, "numRecent=param:numRecent") && strings.Contains(t, "storeEvery=param:storeEvery") && strings.Contains(t, "tree=param:tree"), "C12-R8", "UnsafeNewStore/fields", P.InstrPos(ret), t, "UnsafeNewStore builds "+t)
-		}
-	}
-	if f := r.fn("store/iavl.LoadStore"); f != nil {
-		okWire := false
-		for _, c := range CallsIn(f, "(*store/iavl.Store).SetPruning") {
-			if argTerm(P.callTerm(c), 1).String() == "param:pruning" {
-				okWire = true
-				for _, ret := range P.successReturns(f, 1, "nil") {
-					r.Check(Precedes(c, ret), "C12-R8", "LoadStore/pruning-applied-before-return", P.InstrPos(ret), "applied", "LoadStore can return a store without the pruning options applied")
-				}
-			}
-		}
-		for _, c := range CallsIn(f, "store/iavl.UnsafeNewStore") {
-			t := P.callTerm(c)
-			a1, a2 := argTerm(t, 1).String(), argTerm(t, 2).String()
-			if a1 == "(store/types.PruningOptions).KeepRecent(param:pruning)" && a2 == "(store/types.PruningOptions).KeepEvery(param:pruning)" {
-				okWire = true
-			} else if !(a1 == "0" && a2 == "0") {
-				okWire = false
-				r.Viol("C12-R8", "LoadStore/UnsafeNewStore-args", P.InstrPos(c), "UnsafeNewStore(tree, "+a1+", "+a2+") ; required (numRecent = KeepRecent, storeEvery = KeepEvery) or (0, 0) followed by SetPruning")
-			}
-		}
-		r.Check(okWire, "C12-R8", "LoadStore/pruning-wired", P.Pos(f.Pos()), "the loaded store receives the caller's pruning options", "LoadStore does not hand the pruning options to the store in the right positions")
-		// loads the requested version
-		n := 0
-		for _, nm := range []string{"(*github.com/tendermint/iavl.MutableTree).LoadVersion", "(*github.com/tendermint/iavl.MutableTree).LazyLoadVersion"} {
-			for _, c := range CallsIn(f, nm) {
-				n++
-				r.Check(argTerm(P.callTerm(c), 1).String() == "param:id.Version", "C12-R8", "LoadStore/"+nm[strings.LastIndex(nm, ".")+1:], P.InstrPos(c), "loads id.Version", "loads "+argTerm(P.callTerm(c), 1).String())
-			}
-		}
-		r.Check(n == 2, "C12-R8", "LoadStore/loads-tree", P.Pos(f.Pos()), "tree loaded at the requested version", "LoadStore no longer loads the tree at id.Version")
-	}
-	for _, w := range []struct{ m, fld string }{{"KeepRecent", "keepRecent"}, {"KeepEvery", "keepEvery"}} {
-		if f := r.fn("(store/types.PruningOptions)." + w.m); f != nil {
-			for _, ret := range Returns(f) {
-				t := P.TermAt(ret.Results[0], ret).String()
-				r.Check(t == "param:po."+w.fld, "C12-R8", "PruningOptions."+w.m, P.InstrPos(ret), t, w.m+" returns "+t)
-			}
-		}
-	}
-	if f := r.fn(rmS + "loadCommitStoreFromParams"); f != nil {
-		for _, c := range CallsIn(f, "store/iavl.LoadStore") {
-			t := P.callTerm(c)
-			r.Check(argTerm(t, 1).String() == "param:id" && argTerm(t, 2).String() == "param:rs.pruningOpts", "C12-R8", "loadCommitStoreFromParams/iavl", P.InstrPos(c), t.String(), "IAVL substore is loaded as "+t.String()+" ; required (db, id, rs.pruningOpts, lazy)")
-		}
-	}
+	pruningWiring(r, "C12-R8")
 
 	loadVersionRules(r, "C12-R9")
 }
@@ -345,6 +282,74 @@ func moreC16(r *Run) {
 				t := P.TermAt(ret.Results[0], ret).String()
 				r.Check(strings.Contains(t, w.want), "C16-R7", w.fn+"/fields", P.InstrPos(ret), t, w.fn+" builds "+t+" ; required "+w.want)
 			}
+		}
+	}
+}
+
+// pruningWiring: the retention options reach the tree store unswapped (C12-R8, C13-R6): a store that prunes more
+// than configured deletes the version the on-disk marker still names.
+func pruningWiring(r *Run, rule string) {
+	P := r.P
+	r.Rule(rule, "pruning options reach the tree store unswapped: SetPruning assigns numRecent = KeepRecent() and storeEvery = KeepEvery(); LoadStore builds the store and applies the given pruning options through SetPruning (or passes KeepRecent, KeepEvery in that order); UnsafeNewStore stores its parameters in the same-named fields; PruningOptions getters return their own field", 6)
+	if f := r.fn("(*store/iavl.Store).SetPruning"); f != nil {
+		got := map[string]string{}
+		Instrs(f, func(in ssa.Instruction) {
+			if s, ok := in.(*ssa.Store); ok {
+				got[P.TermAt(s.Addr, s).String()] = P.TermAt(s.Val, s).String()
+			}
+		})
+		r.Check(got["&param:st.numRecent"] == "(store/types.PruningOptions).KeepRecent(param:opt)", rule, "SetPruning/numRecent", P.Pos(f.Pos()), got["&param:st.numRecent"], "numRecent := "+got["&param:st.numRecent"])
+		r.Check(got["&param:st.storeEvery"] == "(store/types.PruningOptions).KeepEvery(param:opt)", rule, "SetPruning/storeEvery", P.Pos(f.Pos()), got["&param:st.storeEvery"], "storeEvery := "+got["&param:st.storeEvery"])
+	}
+	if f := r.fn("store/iavl.UnsafeNewStore"); f != nil {
+		for _, ret := range Returns(f) {
+			t := P.TermAt(ret.Results[0], ret).String()
+			r.Check(strings.Contains(t, "numRecent=param:numRecent") && strings.Contains(t, "storeEvery=param:storeEvery") && strings.Contains(t, "tree=param:tree"), rule, "UnsafeNewStore/fields", P.InstrPos(ret), t, "UnsafeNewStore builds "+t)
+		}
+	}
+	if f := r.fn("store/iavl.LoadStore"); f != nil {
+		okWire := false
+		for _, c := range CallsIn(f, "(*store/iavl.Store).SetPruning") {
+			if argTerm(P.callTerm(c), 1).String() == "param:pruning" {
+				okWire = true
+				for _, ret := range P.successReturns(f, 1, "nil") {
+					r.Check(Precedes(c, ret), rule, "LoadStore/pruning-applied-before-return", P.InstrPos(ret), "applied", "LoadStore can return a store without the pruning options applied")
+				}
+			}
+		}
+		for _, c := range CallsIn(f, "store/iavl.UnsafeNewStore") {
+			t := P.callTerm(c)
+			a1, a2 := argTerm(t, 1).String(), argTerm(t, 2).String()
+			if a1 == "(store/types.PruningOptions).KeepRecent(param:pruning)" && a2 == "(store/types.PruningOptions).KeepEvery(param:pruning)" {
+				okWire = true
+			} else if !(a1 == "0" && a2 == "0") {
+				okWire = false
+				r.Viol(rule, "LoadStore/UnsafeNewStore-args", P.InstrPos(c), "UnsafeNewStore(tree, "+a1+", "+a2+") ; required (numRecent = KeepRecent, storeEvery = KeepEvery) or (0, 0) followed by SetPruning")
+			}
+		}
+		r.Check(okWire, rule, "LoadStore/pruning-wired", P.Pos(f.Pos()), "the loaded store receives the caller's pruning options", "LoadStore does not hand the pruning options to the store in the right positions")
+		// loads the requested version
+		n := 0
+		for _, nm := range []string{"(*github.com/tendermint/iavl.MutableTree).LoadVersion", "(*github.com/tendermint/iavl.MutableTree).LazyLoadVersion"} {
+			for _, c := range CallsIn(f, nm) {
+				n++
+				r.Check(argTerm(P.callTerm(c), 1).String() == "param:id.Version", rule, "LoadStore/"+nm[strings.LastIndex(nm, ".")+1:], P.InstrPos(c), "loads id.Version", "loads "+argTerm(P.callTerm(c), 1).String())
+			}
+		}
+		r.Check(n == 2, rule, "LoadStore/loads-tree", P.Pos(f.Pos()), "tree loaded at the requested version", "LoadStore no longer loads the tree at id.Version")
+	}
+	for _, w := range []struct{ m, fld string }{{"KeepRecent", "keepRecent"}, {"KeepEvery", "keepEvery"}} {
+		if f := r.fn("(store/types.PruningOptions)." + w.m); f != nil {
+			for _, ret := range Returns(f) {
+				t := P.TermAt(ret.Results[0], ret).String()
+				r.Check(t == "param:po."+w.fld, rule, "PruningOptions."+w.m, P.InstrPos(ret), t, w.m+" returns "+t)
+			}
+		}
+	}
+	if f := r.fn(rmS + "loadCommitStoreFromParams"); f != nil {
+		for _, c := range CallsIn(f, "store/iavl.LoadStore") {
+			t := P.callTerm(c)
+			r.Check(argTerm(t, 1).String() == "param:id" && argTerm(t, 2).String() == "param:rs.pruningOpts", rule, "loadCommitStoreFromParams/iavl", P.InstrPos(c), t.String(), "IAVL substore is loaded as "+t.String()+" ; required (db, id, rs.pruningOpts, lazy)")
 		}
 	}
 }
